@@ -82,6 +82,37 @@ def make_scenarios(rng, tier):
                     sc["_first_kind"] = kind
                     scs.append(sc)
                     sid += 1
+    # a pool EMPTIED by a removal of every rule, refilled by one incremental update of all three rules, and then an incremental
+    # replacement of the MIDDLE rule landing while an execution is held: that execution runs one admissible version, and every
+    # later execution runs exactly the rules then installed (only the set-level check applies: the versions mix by design)
+    for (method, kw) in [("Execute", {}), ("ExecuteNSortMConcurrent", {"n": 1, "m": 2}), ("ExecuteMixModel", {}), ("ExecuteSelectedRules", {})]:
+        for where in ("inside", "script"):
+            sc = {"id": sid, "min": 1, "max": 2, "model": 1, "rules": rules_v(1), "steps": []}
+            r0 = sid * 1000
+            sc["steps"].append(dict(upd("remove-all", 0)))
+            sc["steps"].append(dict(upd("incr", 2), _ver=None))
+            u = upd("incr1", 3)
+            if where == "inside":
+                sc["steps"].append(req_step(r0 + 1, method, NAMES, hold_at="", inside=dict({k: v for k, v in u.items() if not k.startswith("_")}, hold_at="pa"), **kw))
+                sc["_inside_ver"] = None
+                sc["_inside_u"] = u
+            else:
+                sc["steps"].append(req_step(r0 + 1, method, NAMES, hold_at="pa", **kw))
+                sc["steps"].append(dict(u))
+                sc["steps"].append({"op": "release", "id": r0 + 1})
+            for k in range(2):
+                sc["steps"].append(req_step(r0 + 10 + k, "Execute", [], hold_at="*", wait_ms=-200))
+            for k in range(2):
+                sc["steps"].append({"op": "release", "id": r0 + 10 + k})
+            sc["steps"].append(dict(upd("incr1", 4)))
+            for k in range(2):
+                sc["steps"].append(req_step(r0 + 20 + k, rng.choice(["Execute", "ExecuteMixModel"]), [], hold_at="*", wait_ms=-200))
+            for k in range(2):
+                sc["steps"].append({"op": "release", "id": r0 + 20 + k})
+            sc["_first_kind"] = "incr1"
+            sc["_refill"] = True
+            scs.append(sc)
+            sid += 1
     # executions that start while ANOTHER management call is holding the pool's locks: every instance has run the old version
     # once, an update to version 2 has returned, then a long removal of names that do not exist runs concurrently with max
     # executions per round — each of them started after the update returned and must run version 2
@@ -156,7 +187,7 @@ def main(run):
                 st = sc["steps"][oo["step"]]
             ver = st.get("_ver")
             names = st.get("names") if st["op"] == "remove" else None
-            op_terms.append((oo["begin_seq"], "(mkOO %s %s %s %s)" % (coq_mop_of(st), coq_nat(oo["begin_seq"]), coq_nat(oo["end_seq"]), coq_bool(not oo["err"] and not oo.get("panic")))))
+            op_terms.append((oo["begin_seq"], len(op_terms), "(mkOO %s %s %s %s)" % (coq_mop_of(st), coq_nat(oo["begin_seq"]), coq_nat(oo["end_seq"]), coq_bool(not oo["err"] and not oo.get("panic")))))
             if oo.get("panic"):
                 extra.append((sc["id"], 36))
             if ver is not None:
@@ -187,7 +218,7 @@ def main(run):
         if first and first[0].get("done") and o["ops"] and o["ops"][0]["begin_seq"] > first[0]["begin_seq"] and o["ops"][0]["end_seq"] < first[0]["end_seq"]:
             landed += 1
         per_sc[sc["id"]] = (ups, execs, "(flat_map (check_exec_set (mgmt_init %s %s %s idshuffle) %s) %s)" % (
-            coq_nat(sc["max"]), coq_nat(sc["model"]), coq_prules(sc["rules"]), coq_list([t for _, t in op_terms]), coq_list(sets)))
+            coq_nat(sc["max"]), coq_nat(sc["model"]), coq_prules(sc["rules"]), coq_list([t for _, _, t in op_terms]), coq_list(sets)))
     parts = []
     for sid, (ups, execs, setcheck) in per_sc.items():
         parts.append("(flat_map (check_exec 1%%nat %s) %s)" % (coq_list(["(" + u + ")" for u in ups]), coq_list(["(" + e + ")" for e in execs])))
@@ -202,13 +233,14 @@ def main(run):
     seen = set()
     for sid, code in mm:
         sc = byid[sid]
-        method = sc["steps"][0]["method"]
+        first_req = next(st for st in sc["steps"] if st["op"] == "req")
+        method = first_req["method"]
         key = (code, method, sc["_first_kind"])
         if key in seen:
             continue
         seen.add(key)
         sig = {"kind": "update-scenario", "symptom": code, "entry": method, "update": sc["_first_kind"]}
-        where = "from inside rule pa" if sc["steps"][0].get("inside") else "while the execution is held in rule pa"
+        where = "from inside rule pa" if first_req.get("inside") else "while the execution is held in rule pa"
         run.report(sig, {"scenario": strip(sc), "requests": ob[sid].get("reqs"), "ops": ob[sid].get("ops"), "crash": ob[sid].get("stderr"), "disagreement": VCODES[code]},
                    "C07: %s with a %s update %s on a (%d,%d) pool: %s" % (method, sc["_first_kind"], where, sc["min"], sc["max"], VCODES[code]))
     bad_shape = shape_report(run, PID, 'updates', bool(run.violations)) if ok else []
